@@ -91,7 +91,8 @@ URL_IN_HTML_BINARY = URL_IN_HTML.encode()
 URL_IN_HTML_RE = re.compile(URL_IN_HTML, re.I | re.A)
 URL_IN_HTML_BINARY_RE = re.compile(URL_IN_HTML_BINARY, re.I)
 
-QUERY_VALUE_IN_URL_TEMPLATE = r"(?:^|[?&])(%s)=([^&]+)"
+# NOTE: "&amp;" (or "&amp%3B") is a common misspelling of "&"
+QUERY_VALUE_IN_URL_TEMPLATE = r"(?:^|[?&](?:amp(?:;|%%3B))?)(%s)=([^&]+)"
 QUERY_VALUE_TEMPLATE = r"%s=([^&#]+)"
 
 # NOTE: the userinfo cannot contain "/", "?" or "#" and the host ends at the
